@@ -93,6 +93,7 @@ exit 0
 V_MODES_FAIL = ["fail", "garbage", "old", "missing"]
 C_MODES_FAIL = ["fail_before", "fail_after_partial", "fail_after_complete", "no_output", "wrong_name", "vanish",
                 "wipe_outdir"]
+NEAR_COPIES = ["identical", "crlf", "cr", "bom", "trailing_newline", "truncated", "latin1", "upper_first"]
 DIE_MODES = ["exit1", "exit77", "exit139", "exit255", "segv", "kill"]
 DUCK_BAD = ["ret_str", "ret_list", "ret_none", "ret_missing_path", "raise_after_output", "raise_before_output",
             "raise_after_wiping_outdir"]
@@ -120,6 +121,11 @@ def gen_target(rng, kind: str) -> dict:
     }
     if t["missing_parents"]:
         t["pre"] = "absent"
+    if kind == "write_rtf" and t["pre"] == "file" and rng.random() < 0.5:
+        # the target already holds (nearly) what is about to be written: an earlier export that went
+        # through an editor, another platform's line endings, a BOM ... "is it up to date?" shortcuts show here
+        t["pre"] = "near_copy"
+        t["near"] = rng.choice(NEAR_COPIES)
     return t
 
 
@@ -191,6 +197,7 @@ def gen_plan(rng) -> dict:
             j = rng.randrange(i)
             if ops[j]["kind"] == ops[i]["kind"]:
                 ops[i]["target"] = dict(ops[j]["target"], pre="earlier")
+                ops[i]["dir_id"] = ops[j].get("dir_id", ops[j]["id"])  # the very same path, directories included
     return {"recipes": recs, "ops": ops, "xdev": rng.random() < 0.4,
             "recovery": True}
 
@@ -558,13 +565,37 @@ def _exec_faults(plan, sb, rtflite, conv_mod, arg) -> dict:
             log.append(ev)
             continue
         sb.install_soffice() if not os.path.exists(sb.soffice) else None
-        targ_arg, targ_abs = resolve_target(sb, op["target"], op.get("id", f"x{i}"))
+        targ_arg, targ_abs = resolve_target(sb, op["target"], op.get("dir_id", op.get("id", f"x{i}")))
         ev["target_key"] = sb.key_of(targ_abs)
         pre = op["target"]["pre"]
         if pre == "file" and not os.path.lexists(targ_abs):
             os.makedirs(os.path.dirname(targ_abs), exist_ok=True)
             with open(targ_abs, "wb") as fh:
                 fh.write(f"PRE-EXISTING {i} {op['target']['name']}".encode())
+        if pre == "near_copy" and not os.path.lexists(targ_abs):
+            try:
+                text = orig_encode(doc)
+                near = op["target"].get("near", "identical")
+                data = text.encode("utf-8")
+                if near == "crlf":
+                    data = text.replace("\n", "\r\n").encode("utf-8")
+                elif near == "cr":
+                    data = text.replace("\n", "\r").encode("utf-8")
+                elif near == "bom":
+                    data = b"\xef\xbb\xbf" + data
+                elif near == "trailing_newline":
+                    data = data + b"\n"
+                elif near == "truncated":
+                    data = data[:-1]
+                elif near == "latin1":
+                    data = text.encode("latin-1", "replace")
+                elif near == "upper_first":
+                    data = data[:1].upper() + data[1:] if data[:1].upper() != data[:1] else data + b" "
+            except BaseException:  # noqa: BLE001 - document does not encode: an ordinary pre-existing file
+                data = f"PRE-EXISTING {i}".encode()
+            os.makedirs(os.path.dirname(targ_abs), exist_ok=True)
+            with open(targ_abs, "wb") as fh:
+                fh.write(data)
         ev["target_pre_state"] = ("exists" if os.path.lexists(targ_abs) else
                                   ("missing_parents" if not os.path.isdir(os.path.dirname(targ_abs)) else "absent"))
         fault = op["fault"]
@@ -1099,7 +1130,7 @@ def job(j: dict) -> dict:
             ws["minimised"] += 1
             try:
                 fplan = minimise(fplan, ws["calib"], v["class"], v["at"])
-            except HarnessError:
+            except Exception:  # noqa: BLE001 - minimisation is optional; the violation is not
                 pass
         out["violations"].append({"v": v, "sig": signature(v), "plan": fplan, "seed_idx": idx})
     return out
@@ -1154,7 +1185,7 @@ def summarise(plan, res, idx) -> dict:
         "steps": sum(e.get("steps", 0) for e in log),
         "sample": {"ops": [{"kind": o["kind"], "fault": o.get("fault"), "target": o.get("target"),
                             "converter": o.get("converter"), "of_id": o.get("of_id")} for o in plan["ops"]],
-                   "outcomes": [e["outcome"] for e in log]} if idx < 3 else None,
+                   "outcomes": [e["outcome"] for e in log]} if (idx < 3 or idx % 1000 == 0) else None,
     }
 
 
@@ -1216,7 +1247,8 @@ def site_jobs(root: int, docs: list, calib: Calib, instances=("first", "last", "
                              "exc": rng.choice(E_EXCS), "mode": "callret" if ev == "return" else "call"}
                     op = {"kind": kind, "doc": 0, "target": tgt, "fault": fault, "converter": conv,
                           "res": rng.choice([0, 1, 2]) if kind == "write_html" else 0, "stray": False}
-                    follow = dict(op, fault={"kind": "none"}, target=dict(tgt, pre="earlier"))
+                    op["id"] = 0
+                    follow = dict(op, fault={"kind": "none"}, target=dict(tgt, pre="earlier"), id=1, dir_id=0)
                     plan = {"recipes": [r], "ops": [op, follow], "xdev": rng.random() < 0.3, "recovery": False}
                     jobs.append({"idx": idx, "plan": plan, "site_job": {"doc": di, "kind": kind, "key": key, "k": k,
                                                                         "count": count}})
@@ -1245,9 +1277,9 @@ def matrix_jobs(root: int, docs: list) -> list:
                 ops = []
                 if st["pre"] == "earlier":
                     ops.append({"kind": kind, "doc": 0, "target": dict(tgt, pre="absent"), "fault": {"kind": "none"},
-                                "converter": "default", "res": 2, "stray": False})
+                                "converter": "default", "res": 2, "stray": False, "id": 0})
                 ops.append({"kind": kind, "doc": 0, "target": tgt, "fault": f, "converter": conv, "res": 1,
-                            "stray": False})
+                            "stray": False, "id": 1, "dir_id": 0})
                 jobs.append({"idx": idx, "plan": {"recipes": [r], "ops": ops, "xdev": rng.random() < 0.3,
                                                   "recovery": True}, "site_job": None})
                 idx += 1
@@ -1276,7 +1308,8 @@ def main(opts) -> int:
     docs = site_docs(root, tier["site_docs"], calib)
     sjobs, total_sites = site_jobs(root, docs, calib, tier["instances"])
     mjobs = matrix_jobs(root, docs)
-    jobs = sjobs + mjobs + [{"root": root, "idx": i} for i in range(runs)]
+    seeded = [{"root": root, "idx": i} for i in range(runs)]
+    jobs = seeded[:16] + sjobs + mjobs + seeded[16:]  # a wall-cap truncation must not starve either kind
     results, truncated = core.pool_map(job, jobs, wall_cap=wall)
     herrs = [f"run {jobs[i].get('idx')}: {r['harness_error'][:600]}" for i, r in sorted(results.items())
              if "harness_error" in r]
